@@ -389,7 +389,7 @@ func leafLiteral(v reflect.Value) string {
 var boundaryLits = []string{"9223372036854775807", "9223372036854775808", "-9223372036854775808", "-9223372036854775809", "18446744073709551615", "18446744073709551616", "127", "128", "-129", "255", "256", "65536",
 	"1e999", "-1e999", "340282346638528859811704183484516925440", "3.5e38", "1e39", "4294967296", "2147483648", "-", "+", ".", "1e", "0x", "_", "Inf", "NaN"}
 
-var patterns = []string{"^a", "b+", "[", "", "o$"}
+var patterns = []string{"^a", "b+", "[", "", "o$", "^a$", `\\Aa\\z`, "^ab$", "^foo$", "(?i)^A", "(?i)ab", "a|b", "^x y$", "(?s).", `^1\\.5$`, "(?i)^FOO|zz", `\\Qa`, "(?m)^a$", "^$"}
 
 // genSelLit picks a selector (mostly resolving, sometimes absent), a literal drawn from the selected leaf most of the
 // time, and a regexp pattern; leaf is the selected value (invalid when unknown).
